@@ -977,6 +977,17 @@ func (g *G) genStmt(depth int) []Stmt {
 				r := g.fresh("v")
 				out = append(out, &Let{Name: r, T: v.t, Init: &Call{T: v.t, Fn: fn, Args: []Expr{g.genInt(v.t, 1)}}})
 				g.declare(r, v.t, true)
+				if g.chance(3, "compound_rhs_mutates") && g.use("stmt.compound_rhs_mutates_target") {
+					// left-to-right evaluation: `v op= bump()` reads v before bump() writes it
+					bump := g.fresh("bump")
+					bt := &Type{K: KFn, Ret: v.t}
+					blit := &FnLit{T: bt, Body: []Stmt{
+						&Assign{LHS: &Var{T: v.t, Name: v.name}, Op: "=", RHS: &Bin{T: v.t, Op: "+", L: &Var{T: v.t, Name: v.name}, R: g.posLit(v.t, 9)}},
+						&Return{X: g.posLit(v.t, 9)}}}
+					out = append(out, &Let{Name: bump, T: bt, Init: blit, Infer: true},
+						&Assign{LHS: &Var{T: v.t, Name: v.name}, Op: rapid.SampledFrom([]string{"+=", "-=", "*="}).Draw(g.t, "cmut_op"), RHS: &Call{T: v.t, Fn: bump}},
+						&Print{Args: []Expr{&Var{T: v.t, Name: v.name}}})
+				}
 				return out
 			}
 		}
